@@ -447,6 +447,143 @@ func State() string {
 	}}
 }
 
+// MarkerProgram: (a) interfaces whose only method is an unexported marker that nothing ever calls: the
+// implementing values must still satisfy them in assertions, comma-ok assertions and type switches (here and in
+// another package); (b) types declared inside function literals of generic functions and methods.
+func MarkerProgram() diffrun.Program {
+	name := "c05_markers"
+	mod := diffrun.ModName(name)
+	r := func(s string) string { return strings.ReplaceAll(s, "MOD", mod) }
+	return diffrun.Program{Name: name, Files: map[string]string{
+		"main.go": r(`package main
+
+import "MOD/ast"
+
+type expr interface{ isExpr() }
+type stmt interface {
+	isStmt()
+	expr
+}
+
+type lit struct{ v Int }
+type add struct{ l, r expr }
+type text string
+type both struct{}
+
+func (lit) isExpr()   {}
+func (*add) isExpr()  {}
+func (both) isExpr()  {}
+func (both) isStmt()  {}
+func (t text) other() {}
+
+func classify(x interface{}) string {
+	s := ""
+	if _, ok := x.(expr); ok {
+		s += "E"
+	}
+	if _, ok := x.(stmt); ok {
+		s += "S"
+	}
+	switch x.(type) {
+	case stmt:
+		s += "/stmt"
+	case expr:
+		s += "/expr"
+	default:
+		s += "/other"
+	}
+	return s
+}
+
+func must(x interface{}) (res string) {
+	defer func() {
+		if recover() != nil {
+			res = "panic"
+		}
+	}()
+	_ = x.(expr)
+	return "ok"
+}
+
+// a type that does not mention the type parameter, declared and used inside a function literal of a generic function
+func Visit[T any](xs []T, f func(T) Int) Int {
+	total := Int(0)
+	walk := func() {
+		type step struct {
+			n, weight Int
+		}
+		var cur step
+		for _, x := range xs {
+			s := step{f(x), 10}
+			cur.n = cur.n*s.weight + s.n
+		}
+		var boxed interface{} = cur
+		if c, ok := boxed.(step); ok {
+			total = c.n
+		}
+	}
+	walk()
+	return total
+}
+
+type Coll[T any] struct{ items []T }
+
+func (c Coll[T]) Count(pred func(T) bool) Int {
+	run := func() Int {
+		type tally struct{ yes, no Int }
+		var t tally
+		for _, it := range c.items {
+			if pred(it) {
+				t.yes++
+			} else {
+				t.no++
+			}
+		}
+		var boxed interface{} = t
+		if tt, ok := boxed.(tally); ok {
+			return tt.yes*10 + tt.no
+		}
+		return -1
+	}
+	return run()
+}
+
+func main() {
+	vals := []interface{}{lit{1}, &add{lit{1}, lit{2}}, add{}, text("t"), both{}, nil, 42}
+	out := ""
+	for _, v := range vals {
+		out += classify(v) + ";"
+	}
+	println("C05/markers/local", out, must(lit{1}), must(text("x")), must(&add{}))
+	println("C05/markers/otherpkg", ast.Classify(ast.NewNum(1)), ast.Classify(ast.NewNeg()), ast.Classify(3))
+	println("C05/markers/local-types", itoa(int64(Visit([]Int{1, 2, 3}, func(x Int) Int { return x }))), itoa(int64(Visit([]string{"a", "bb"}, func(s string) Int { return Int(len(s)) }))), itoa(int64(Coll[Int]{[]Int{1, 2, 3}}.Count(func(x Int) bool { return x > 1 }))), itoa(int64(Coll[string]{[]string{"a"}}.Count(func(s string) bool { return s == "" }))))
+}
+`),
+		"ast/ast.go": `package ast
+
+// Node is sealed: the marker is never called anywhere
+type Node interface{ node() }
+
+type num struct{ v int }
+type neg struct{ x Node }
+
+func (num) node()  {}
+func (*neg) node() {}
+
+func NewNum(v int) interface{} { return num{v} }
+func NewNeg() interface{}      { return &neg{num{1}} }
+
+func Classify(x interface{}) string {
+	switch x.(type) {
+	case Node:
+		return "node"
+	}
+	return "other"
+}
+`,
+	}}
+}
+
 // LinkChainProgram: go:linkname references that become reachable only through other linknamed
 // implementations (chains of 2 and 3 hops across packages, none of the implementations referenced by name).
 func LinkChainProgram() diffrun.Program {
